@@ -10,7 +10,7 @@ from pymemcache.client.murmur3 import murmur3_32
 
 PROPERTY = "C14"
 LEVEL = "exploration"
-RULE_THREADS = (" Instances of str subclasses (a plain subclass, one overriding __str__/__repr__/__format__, a str-valued Enum member) hash as their characters. Two threads: each hashes its own string while the other is pre-empted at every bytecode of the hash function (deterministic scheduler, one pre-emption per run; thorough: two) - every call still returns the reference value (the function is a pure function of its arguments, also under concurrency).")
+RULE_THREADS = (" The hash function a RendezvousHash(seed=s) holds (fresh, built with nodes=, copy.copy, copy.deepcopy) equals the reference with seed s. Instances of str subclasses (a plain subclass, one overriding __str__/__repr__/__format__, a str-valued Enum member) hash as their characters. Two threads: each hashes its own string while the other is pre-empted at every bytecode of the hash function (deterministic scheduler, one pre-emption per run; thorough: two) - every call still returns the reference value (the function is a pure function of its arguments, also under concurrency).")
 RULE = ("cases are (string, 32-bit seed); enumerated: published vectors, every string of length 0-3 "
         "(thorough: 0-3 over a larger alphabet, 4-5 over reduced ones) over representative code points "
         "incl. 0x00,0x7f,0x80,0xff x seeds {0,1,2^31,2^32-1}; Hypothesis: every length 0..64 over code "
@@ -183,6 +183,32 @@ def check_subclass(case):
     return True, ["subclass", kind]
 
 
+# ---- the hash as the placement code uses it ---------------------------------------------------------------------
+
+def ring_hash_cases(tier, seed):
+    for s in ("", "a", "abcd", "node-1:11211-key", "\xff\x80\x00\x01tail", "k" * 33, "n:1-" + "x" * 250):
+        for sd in (0, 1, 7, 2**31, 2**32 - 1):
+            for how in ("fresh", "copy", "deepcopy", "nodes-ctor"):
+                yield (s, sd, how)
+
+
+def check_ring_hash(case):
+    """RendezvousHash(seed=s).hash_function is murmur3_32 with that seed - also on a copy of the ring"""
+    import copy
+    from pymemcache.client.rendezvous import RendezvousHash
+    s, sd, how = case
+    r = RendezvousHash(nodes=["a:1", "b:2"], seed=sd) if how == "nodes-ctor" else RendezvousHash(seed=sd)
+    if how == "copy":
+        r = copy.copy(r)
+    elif how == "deepcopy":
+        r = copy.deepcopy(r)
+    want = refhash.murmur3(refhash.latin1(s), sd)
+    got = r.hash_function(s)
+    if got != want:
+        raise Violation(["ring-hash", how], "RendezvousHash(seed=%#x) [%s].hash_function(%r) = %r, reference MurmurHash3 with that seed %#010x" % (sd, how, s[:30], got, want))
+    return sd != 0, ["ring-hash", how]
+
+
 # ---- callers in several threads ---------------------------------------------------------------------------------
 
 PAIRS = [("hello-abc", "xyzzy"), ("abcd", "0123456789abc"), ("", "seven77"), ("\xff\x80\x00\x01tail", "\xe9" * 6), ("k" * 33, "k" * 34), ("node-1:11211-key", "node-2:11211-key")]
@@ -236,6 +262,7 @@ def check_threads(case):
 
 PARTS = [
     Part("str-subclasses", "enum", check_subclass, cases=subclass_cases, shards={"quick": 1, "thorough": 1}, exhaustive=True),
+    Part("ring-hash-function", "enum", check_ring_hash, cases=ring_hash_cases, shards={"quick": 1, "thorough": 1}, exhaustive=True),
     Part("two-threads", "enum", check_threads, cases=thread_cases, exhaustive=True),
     Part("vectors", "enum", check_vector, cases=vector_cases, shards={"quick": 1, "thorough": 1}, exhaustive=True),
     Part("short-exhaustive", "enum", check, cases=short_cases, exhaustive=True),
